@@ -9,7 +9,8 @@
 (* harness:                                                                *)
 (*      0..9            the ASCII digits '0'..'9'                          *)
 (*      100 + cp        any other character with code point cp             *)
-(*      2000000 + cp    a non-ASCII decimal digit (Unicode class Nd)       *)
+(*      2000000 + cp    a non-ASCII numeric character (Unicode N*, e.g.    *)
+(*                      Arabic-Indic digits, superscripts, CJK numerals)   *)
 (* so "unchanged" is decided here, character by character.                 *)
 (*                                                                         *)
 (* R (what C11 states, nothing more)                                       *)
@@ -22,8 +23,8 @@
 (*   Any hash, any offset inside the block and r = n are accepted.         *)
 (*   Don't-care (accepted whatever happens): a run that spells a listed    *)
 (*   number with leading zeros; lines with digit '.' digit (AS-dot         *)
-(*   notation) or with non-ASCII decimal digits; lists with entries that   *)
-(*   are not canonical decimals in 0..4294967295.                          *)
+(*   notation) or with non-ASCII numeric characters; lists with entries    *)
+(*   that are not canonical decimals in 0..4294967295.                     *)
 (*                                                                         *)
 (* M (how netconan does it; used for TLC design checks only, see AsNumMC)  *)
 (*   r = h mod (B[i+1] - B[i]) + B[i];  one left-to-right pass trying the  *)
